@@ -92,7 +92,9 @@ type StoreSpec struct {
 //	failsave            the next storage write fails
 //	failrepl A=n        the next n file replications fail
 //	member  A=member id (UpdateMemberWaitAsyncTime)
-//	restart             a new manager over the same storage and cluster (leader change)
+//	restart A=0|1       a new manager over the same storage and cluster (leader change); A=1: every storage read
+//	                    fails during the first construction, which is then retried without fault (as the leader
+//	                    campaign would)
 type Op struct {
 	K    string `json:"k"`
 	A    int    `json:"a,omitempty"`
@@ -193,6 +195,8 @@ func genConfigOp(t *rapid.T) Op {
 	return op
 }
 
+func genRestart(t *rapid.T) Op { return Op{K: "restart", A: w(t, "loadFault", 55, 45)} }
+
 func genTick(t *rapid.T) Op { return Op{K: "tick", A: w(t, "nticks", 80, 15, 5)} }
 
 // flap phase: stores of a dc go down (and come back), ticks in between
@@ -231,7 +235,7 @@ func genFlap(t *rapid.T, losing int) []Op {
 	case 9:
 		return []Op{{K: "member", A: rapid.IntRange(1, 3).Draw(t, "member")}}
 	case 10:
-		return []Op{{K: "restart"}}
+		return []Op{genRestart(t)}
 	case 11:
 		return []Op{{K: "dc", A: w(t, "whichdc", 40, 30, 30), B: w(t, "ustate", 80, 20), C: 0}}
 	case 12:
@@ -255,7 +259,7 @@ func genFlap(t *rapid.T, losing int) []Op {
 
 // report phase: most regions report the current state id, ticks in between
 func genReport(t *rapid.T) []Op {
-	switch w(t, "report", 30, 28, 10, 5, 5, 4, 4, 6, 3, 1, 1, 2, 3, 2) {
+	switch w(t, "report", 30, 28, 10, 5, 5, 4, 4, 6, 3, 1, 3, 2, 3, 2) {
 	case 0:
 		return []Op{{K: "report", A: 0, B: 1000, St: 2, ID: 0, Skip: genSkips(t)}}
 	case 1:
@@ -287,7 +291,7 @@ func genReport(t *rapid.T) []Op {
 	case 9:
 		return []Op{genStoreOp(t)}
 	case 10:
-		return []Op{{K: "restart"}}
+		return []Op{genRestart(t)}
 	case 11:
 		return []Op{{K: "failrepl", A: rapid.IntRange(1, 3).Draw(t, "n")}}
 	case 12:
@@ -347,6 +351,10 @@ func genCase(t *rapid.T) Case {
 	for r := 0; r < rounds; r++ {
 		if w(t, "outage", 20, 80) == 1 {
 			add(Op{K: "dc", A: losing, B: 2, C: 0}, genTick(t))
+			if w(t, "leaderChange", 85, 15) == 1 {
+				// the pd leader changes while the cluster is (usually) async
+				add(genRestart(t))
+			}
 			if w(t, "deleteDead", 60, 40) == 1 {
 				// the dead stores are deleted by the operator: Offline, still dead, still failed
 				add(Op{K: "dcstate", A: losing, B: 1 + w(t, "destroyed", 70, 30), C: w(t, "howmany", 70, 30)}, genTick(t))
@@ -626,6 +634,7 @@ type fixture struct {
 	kv     *faultkv.KV
 	stg    *core.Storage // the manager's storage
 	ostg   *core.Storage // the oracle's view of the backend
+	base   kv.Base       // the backend itself (byte-level comparison of the persisted record)
 	rep    *recRepl
 	m      *replication.ModeManager
 }
@@ -858,7 +867,7 @@ func (r *runner) judge(ctx opCtx, atts []attempt) error {
 			}
 		case "init", "restart":
 			if !(a.state == "sync" && !m.stored.valid) {
-				return fmt.Errorf("%s: a manager start may only initialise an empty storage to sync", what)
+				return fmt.Errorf("%s: a manager start is not a transition; it may only initialise a storage that never held a status to sync (persisted before the start: %v)", what, m.stored)
 			}
 		default:
 			return fmt.Errorf("%s: this operation must not change the replication state", what)
@@ -1033,19 +1042,39 @@ func (r *runner) regionsBrief() string {
 	return s
 }
 
-func (r *runner) newManager(ctx opCtx) error {
-	r.f.kv.ResetCounters() // a manager start with a failing storage is not part of this property
+func (r *runner) newManager(ctx opCtx, failLoads bool) error {
+	r.f.kv.ResetCounters() // a manager start with a failing storage WRITE is not part of this property
 	r.f.kv.TakeLog()
 	r.f.rep.offers = nil
+	before, _ := r.f.base.Load(drKey)
+	r.f.kv.FailLoads = failLoads
 	mgr, err := replication.NewReplicationModeManager(toConfig(r.m.cfg), r.f.stg, r.f.cl, r.f.rep)
+	r.f.kv.FailLoads = false
+	atts, cerr := r.collect()
+	if cerr != nil {
+		return fmt.Errorf("%s: %v", ctx.desc, cerr)
+	}
 	if err != nil {
-		return fmt.Errorf("%s: NewReplicationModeManager failed: %v", ctx.desc, err)
+		if !failLoads {
+			return fmt.Errorf("%s: NewReplicationModeManager failed without an injected fault: %v", ctx.desc, err)
+		}
+		// a construction that fails must have changed nothing; the old leader's manager is gone,
+		// the campaign retries and the retry must find the persisted status
+		now, _ := r.f.base.Load(drKey)
+		if now != before {
+			return fmt.Errorf("%s: the manager construction failed (%v) but changed the persisted status from %q to %q", ctx.desc, err, before, now)
+		}
+		for _, a := range atts {
+			r.m.seen[a.id] = true
+		}
+		r.class("restart-read-fault-construction-failed")
+		ctx.desc += " (retry after a failed read)"
+		return r.newManager(ctx, false)
+	}
+	if failLoads {
+		r.class("restart-read-fault-construction-succeeded")
 	}
 	r.f.m = mgr
-	atts, err := r.collect()
-	if err != nil {
-		return fmt.Errorf("%s: %v", ctx.desc, err)
-	}
 	if err := r.judge(ctx, atts); err != nil {
 		return err
 	}
@@ -1069,6 +1098,7 @@ func runCase(c Case) (vkit.Info, error) {
 	f.kv.KeepLog = true
 	f.stg = core.NewStorage(f.kv)
 	f.ostg = core.NewStorage(base)
+	f.base = base
 	f.rep = &recRepl{kv: f.kv}
 
 	m := &model{cfg: c.Init, seen: map[uint64]bool{}, nextID: 1000}
@@ -1088,7 +1118,7 @@ func runCase(c Case) (vkit.Info, error) {
 		r.class("more-regions-than-default-batch")
 	}
 
-	if err := r.newManager(opCtx{kind: "init", cfg: m.cfg, desc: "initial manager start"}); err != nil {
+	if err := r.newManager(opCtx{kind: "init", cfg: m.cfg, desc: "initial manager start"}, false); err != nil {
 		return info, err
 	}
 	if m.cfg.DR {
@@ -1272,7 +1302,7 @@ func runCase(c Case) (vkit.Info, error) {
 			f.m.UpdateMemberWaitAsyncTime(uint64(op.A))
 		case "restart":
 			r.class("restart")
-			if err := r.newManager(opCtx{kind: "restart", cfg: m.cfg, desc: desc}); err != nil {
+			if err := r.newManager(opCtx{kind: "restart", cfg: m.cfg, desc: desc}, op.A == 1); err != nil {
 				return info, err
 			}
 		case "config":
